@@ -930,7 +930,23 @@ class Sim(FAM.FamilyMixin):
             if not h.masked or h.ulen is None:
                 return False
             vals = [small(op["v"] * 16 + i) for i in range(h.ulen)]
-            got = self.call(fn, self.make_array(h.tname, vals))
+            if op["v"] % 2 and h.ulen > 0:
+                # the operand of unmasked length is itself a masked reference (selecting exactly ulen elements of a longer array)
+                total = h.ulen + 1 + (op["v"] % 3)
+                drop = set(((op["v"] * 7 + j * 3) % total) for j in range(total - h.ulen))
+                j = 0
+                while len(drop) < total - h.ulen:
+                    drop.add(j)
+                    j += 1
+                picked = [p for p in range(total) if p not in drop][:h.ulen]
+                uvals = [small(op["v"] * 16 + 40 + i) for i in range(total)]
+                under = self.make_array(h.tname, uvals)
+                data = under[self.make_mask([1 if p in picked else 0 for p in range(total)])]
+                vals = [uvals[p] for p in picked]
+                self.inc("probe.masked_lhs_unmasked_length_masked_rhs")
+            else:
+                data = self.make_array(h.tname, vals)
+            got = self.call(fn, data)
             per = [vals[p] for p in h.upos]
             self.inc("probe.masked_lhs_unmasked_rhs")
             if h.ulen == n:
